@@ -382,6 +382,110 @@ def render_outside_guard(idx, pats):
 """
 
 
+def render_hostile(idx, which):
+    """Evaluation discipline: a matcher evaluates what the equivalent match evaluates, nothing more.
+    `debug`: the Debug impl of an argument must not run for a call that is accepted (ordered mode
+    collects diagnostics only for rejected inputs). `eq`: an eq!/ne! comparison is a guard - it is not
+    evaluated when a pattern at another position has already refused the input."""
+    if which == "debug":
+        return """    pub struct Hd(pub u8);
+    impl core::fmt::Debug for Hd {
+        fn fmt(&self, _: &mut core::fmt::Formatter<'_>) -> core::fmt::Result {
+            panic!("Debug of an argument was run for an accepted call");
+        }
+    }
+    #[unimock(api=Mk)]
+    pub trait Tr {
+        fn f(&self, a0: Hd, a1: u8) -> u32;
+    }
+    pub fn run() -> Result<(), String> {
+        for a1 in 0..3u8 {
+            for mode in 0..3 {
+                let u = match mode {
+                    0 => Unimock::new(Mk::f.each_call(matching!(Hd(1), _)).returns(1u32)),
+                    1 => Unimock::new(Mk::f.next_call(matching!(Hd(1), _)).returns(1u32)),
+                    _ => Unimock::new(Mk::f.next_call(matching!((Hd(0), 9) | (Hd(1), _))).returns(1u32)),
+                }
+                .no_verify_in_drop();
+                let got = vh::obs::catch(|| u.f(Hd(1), a1));
+                if got != Ok(1) {
+                    return Err(format!("mode {mode}: the equivalent match accepts (Hd(1), {a1}) without formatting anything, the call gave {got:?}"));
+                }
+            }
+        }
+        vh::gsupport::ev("9/0");
+        Ok(())
+    }
+"""
+    return """    #[derive(Debug)]
+    pub struct He(pub u8);
+    impl PartialEq for He {
+        fn eq(&self, other: &He) -> bool {
+            if self.0 == 9 || other.0 == 9 {
+                panic!("== was evaluated although another position had already refused the input");
+            }
+            self.0 == other.0
+        }
+    }
+    #[unimock(api=Mk)]
+    pub trait Tr {
+        fn f(&self, a0: u8, a1: He) -> u32;
+    }
+    #[allow(unreachable_patterns)]
+    fn native(a0: u8, a1: &He, form: u8) -> bool {
+        match form {
+            0 => match (a0, a1) { (0, _) if *a1 == He(1) => true, _ => false },
+            1 => match (a0, a1) { (0, _) if *a1 != He(1) => true, _ => false },
+            _ => match (a0, a1) { (0, _) if *a1 == He(1) => true, (1, _) => true, _ => false },
+        }
+    }
+    pub fn run() -> Result<(), String> {
+        let (mut accepted, mut rejected) = (0usize, 0usize);
+        for form in 0..3u8 {
+            for a0 in 0..3u8 {
+                for v in [0u8, 1, 9] {
+                    // the hostile value is only offered where position 0 refuses (the match never compares there)
+                    if v == 9 && a0 == 0 {
+                        continue;
+                    }
+                    let expect = native(a0, &He(v), form);
+                    if expect { accepted += 1 } else { rejected += 1 }
+                    for ordered in [false, true] {
+                        // (collecting diagnostics for a rejected input may well evaluate the
+                        // comparison in order to report it: the hostile value is only offered where
+                        // no diagnostics are collected)
+                        if ordered && v == 9 {
+                            continue;
+                        }
+                        let u = match (form, ordered) {
+                            (0, false) => Unimock::new((Mk::f.each_call(matching!(0, eq!(&He(1)))).returns(1u32), Mk::f.each_call(matching!(_, _)).returns(2u32))),
+                            (1, false) => Unimock::new((Mk::f.each_call(matching!(0, ne!(&He(1)))).returns(1u32), Mk::f.each_call(matching!(_, _)).returns(2u32))),
+                            (_, false) => Unimock::new((Mk::f.each_call(matching!((0, eq!(&He(1))) | (1, _))).returns(1u32), Mk::f.each_call(matching!(_, _)).returns(2u32))),
+                            (0, true) => Unimock::new(Mk::f.next_call(matching!(0, eq!(&He(1)))).returns(1u32)),
+                            (1, true) => Unimock::new(Mk::f.next_call(matching!(0, ne!(&He(1)))).returns(1u32)),
+                            (_, true) => Unimock::new(Mk::f.next_call(matching!((0, eq!(&He(1))) | (1, _))).returns(1u32)),
+                        }
+                        .no_verify_in_drop();
+                        let got = vh::obs::catch(|| u.f(a0, He(v)));
+                        let ok = match (&got, ordered) {
+                            (Ok(1), _) => expect,
+                            (Ok(2), false) => !expect,
+                            (Err(msg), true) => !expect && msg.contains("inputs didn't match"),
+                            _ => false,
+                        };
+                        if !ok {
+                            return Err(format!("form {form}, {}: arguments ({a0}, He({v})) {} by the equivalent match, the call gave {got:?}", if ordered { "ordered" } else { "unordered" }, if expect { "are accepted" } else { "are rejected" }));
+                        }
+                    }
+                }
+            }
+        }
+        vh::gsupport::ev(format!("{accepted}/{rejected}"));
+        Ok(())
+    }
+"""
+
+
 OUTSIDE_GUARDS = [[], ["_"], ["0"], ["{b}"], ["_", "_"], ["1", "_"], ["eq!(&1)", "_"]]
 
 
@@ -390,6 +494,8 @@ def run(pid, tier, replay, start):
     insts = []
     for s in shapes(tier):
         insts.append(Instance(len(insts), key(s), render(len(insts), s), s))
+    for which in ("debug", "eq"):
+        insts.append(Instance(len(insts), f"evaluation-discipline :: hostile {which}", render_hostile(len(insts), which), {"types": ["u8"], "alts": [["x"]]}))
     for pats in OUTSIDE_GUARDS:
         shown = [p.replace("{b}", "b") for p in pats]
         if any(p.startswith(("eq!", "ne!")) for p in pats):
